@@ -30,6 +30,11 @@ pub struct Case {
     pub rng_seed: u64,
     pub steps: usize,
     pub arm: Arm,
+    /// the sequences of the dataset are not striped from text but built through `StripedSequence::new`
+    /// from hand-filled matrices whose unused cells hold arbitrary symbols (as `StripedSequence::sample`
+    /// leaves them)
+    #[serde(default)]
+    pub via_new: bool,
 }
 
 pub struct Trace;
@@ -71,7 +76,7 @@ where
     let striped: Vec<StripedSequence<A, U32>> = seqs
         .iter()
         .map(|s| {
-            let mut st: StripedSequence<A, U32> = Pipeline::<A, _>::generic().stripe(&syms::<A>(s));
+            let mut st: StripedSequence<A, U32> = if case.via_new { striped_via_new::<A, U32>(s, 0, s.len() as u64 * 31 + 7) } else { Pipeline::<A, _>::generic().stripe(&syms::<A>(s)) };
             st.configure_wrap(width + case.extra_wrap);
             st
         })
@@ -219,7 +224,7 @@ impl Sub for Trace {
         "trace"
     }
     fn rule(&self) -> &'static str {
-        "DNA / protein dataset of 2..12 sequences (lengths width+1..~120, occasional wildcards) x width 1..20 x mode Oops or Zoops (seeds 2..n, inertia, patience) x StdRng seed x 1..300 steps x forced dispatcher arm; after construction and after EVERY step count_matrix, background, starts and Iteration.counts are recomputed from the reported alignment; the whole run is repeated and the two traces (z, counts, pssm bits, active set, starts) must be identical; non-trivial = >= 50 steps with a changed start (and an inclusion in Zoops)"
+        "DNA / protein dataset of 2..12 sequences (lengths width+1..~120, occasional wildcards; striped from text or, 1 in 4, built through StripedSequence::new with arbitrary symbols in the unused cells, as StripedSequence::sample leaves them) x width 1..20 x mode Oops or Zoops (seeds 2..n, inertia, patience) x StdRng seed x 1..300 steps x forced dispatcher arm; after construction and after EVERY step count_matrix, background, starts and Iteration.counts are recomputed from the reported alignment; the whole run is repeated and the two traces (z, counts, pssm bits, active set, starts) must be identical; non-trivial = >= 50 steps with a changed start (and an inclusion in Zoops)"
     }
     fn cases(&self, tier: Tier) -> u64 {
         tier.pick(8_000, 200_000)
@@ -246,10 +251,10 @@ impl Sub for Trace {
                     mode,
                     any::<u64>(),
                     prop_oneof![1 => 1usize..=20, 3 => 50usize..=300],
-                    arm_strategy(),
+                    (arm_strategy(), prop_oneof![3 => Just(false), 1 => Just(true)]),
                 )
             })
-            .prop_map(|(abc, width, seqs, extra_wrap, mode, rng_seed, steps, arm)| Case { abc, width, seqs, extra_wrap, mode, rng_seed, steps, arm })
+            .prop_map(|(abc, width, seqs, extra_wrap, mode, rng_seed, steps, (arm, via_new))| Case { abc, width, seqs, extra_wrap, mode, rng_seed, steps, arm, via_new })
             .boxed()
     }
     fn check(&self, case: &Case, _cx: &Cx) -> Verdict {
@@ -261,6 +266,7 @@ impl Sub for Trace {
             Mode::Zoops { .. } => "zoops",
         });
         info.class(case.arm.name());
+        info.class_if(case.via_new, "dataset-built-by-StripedSequence::new(arbitrary-padding)");
         let r = with_abc!(case.abc, A => {
             match run::<A>(case, &mut info) {
                 Err(f) => Err(f),
